@@ -438,15 +438,16 @@ def r13_channel_is_the_only_buffer(ctx):
     F, R = ctx.F, ctx.R
     tr = ctx.tracer(follow_callers=False, follow_fields=False, inline_calls=False)
     n = 0
-    for adt_name, allowed in (("jsonrpsee_core::client::SubscriptionReceiver", r"^tokio::sync::mpsc::(bounded::)?Receiver<|SubscriptionLagged$"),
-                              ("jsonrpsee_core::client::Subscription", r"^bool$|mpsc::(bounded::)?Sender<.*FrontToBack>$|client::SubscriptionReceiver$|^std::option::Option<jsonrpsee_core::client::SubscriptionKind>$|^std::marker::PhantomData<")):
+    HOLDS = r"Vec<|VecDeque<|BinaryHeap<|LinkedList<|HashMap<|BTreeMap<|RawValue|serde_json::Value|SmallVec<|\[.*; \d+\]|std::string::String|FuturesUnordered|Option<.*(Notif|RawValue)"
+    for adt_name in ("jsonrpsee_core::client::SubscriptionReceiver", "jsonrpsee_core::client::Subscription"):
         adt = F.adt(adt_name)
         if adt is None:
             raise AnchorLost("ADT %s" % adt_name)
         for v in adt["variants"]:
             for f in v["fields"]:
                 n += 1
-                R.check(bool(re.search(allowed, f["ty"])), "C05.R13", "%s.%s:not-a-buffer" % (adt_name.split("::")[-1], f["n"]), "%s.%s (%s) holds no notifications" % (adt_name.split("::")[-1], f["n"], f["ty"][:60]), "%s has a field `%s: %s` besides its channel: notifications parked there have left the bounded channel, so the read task no longer sees a consumer that is more than the configured buffer behind (no Lagged, no unsubscribe)" % (adt_name.split("::")[-1], f["n"], f["ty"][:80]), None)
+                is_channel = bool(re.search(r"^tokio::sync::mpsc::(bounded::)?(Receiver|Sender)<", f["ty"]))
+                R.check(is_channel or not re.search(HOLDS, f["ty"]), "C05.R13", "%s.%s:not-a-buffer" % (adt_name.split("::")[-1], f["n"]), "%s.%s (%s) holds no notifications" % (adt_name.split("::")[-1], f["n"], f["ty"][:60]), "%s has a field `%s: %s` besides its channel that can hold notifications: items parked there have left the bounded channel, so the read task no longer sees a consumer that is more than the configured buffer behind (no Lagged, no unsubscribe)" % (adt_name.split("::")[-1], f["n"], f["ty"][:80]), None)
     b = F.one(r"^<jsonrpsee_core::client::SubscriptionReceiver as futures_util::Stream>::poll_next$")
     R.fn(b)
     takes = b.calls_to(r"mpsc::(bounded::)?Receiver::<.*>::(poll_recv|poll_recv_many|try_recv|recv_many|recv|blocking_recv)$")
